@@ -1039,6 +1039,35 @@ class Interp(Engine):
         if issubclass(cls, tuple) and hasattr(cls, "_fields"):
             fields = cls._fields
             vals = list(args)
+            custom_new = cls.__dict__.get("__new__")
+            if custom_new is not None and inspect.isfunction(getattr(custom_new, "__func__", custom_new)):
+                # namedtuple subclass with its own __new__ (e.g. Shape4D): positional parameters map to the fields in
+                # order and carry defaults; a single list argument is padded on the left with 1 (full_shape semantics)
+                fn_new = getattr(custom_new, "__func__", custom_new)
+                if len(vals) == 1 and isinstance(self.force(vals[0]), VList) and not kwargs:
+                    items = self.iter_concrete(self.force(vals[0]))
+                    if len(items) > len(fields):
+                        raise Unsupported("list longer than the namedtuple")
+                    vals = [VInt(1)] * (len(fields) - len(items)) + items
+                else:
+                    dflt = fn_new.__defaults__ or ()
+                    pnames = list(inspect.signature(fn_new).parameters)[1:]
+                    for kname, kval in list(kwargs.items()):
+                        if kname in pnames:
+                            idx = pnames.index(kname)
+                            while len(vals) <= idx:
+                                vals.append(None)
+                            vals[idx] = kval
+                            del kwargs[kname]
+                    for i in range(len(fields)):
+                        if i >= len(vals) or vals[i] is None:
+                            di = i - (len(pnames) - len(dflt))
+                            if di < 0:
+                                raise Unsupported("missing NT field %s" % fields[i])
+                            if i >= len(vals):
+                                vals.append(self.lift(dflt[di]))
+                            else:
+                                vals[i] = self.lift(dflt[di])
             if len(vals) > len(fields):
                 raise Unsupported("too many NT args")
             d = dict(zip(fields, vals))
@@ -2222,3 +2251,25 @@ def _isnan(self, args, kw):
     if isinstance(v, VFloat):
         return VBool(z3.fpIsNaN(v.t))
     return VBool(False)
+
+
+@builtin(np.subtract, np.add)
+def _np_elementwise(self, args, kw):
+    """np.subtract / np.add on two equal-length integer sequences: a fresh sequence of the element-wise results.
+    (numpy int64 array semantics; elements are kept as mathematical ints, the contract proves they stay far below 2**63)"""
+    a = self.iter_values(self.force(args[0]))
+    b = self.iter_values(self.force(args[1]))
+    if len(a) != len(b):
+        raise Unsupported("np elementwise op on sequences of different length (broadcast)")
+    return self.new_list([self.binop("-", x, y) for x, y in zip(a, b)])
+
+
+def _np_add(self, args, kw):
+    a = self.iter_values(self.force(args[0]))
+    b = self.iter_values(self.force(args[1]))
+    if len(a) != len(b):
+        raise Unsupported("np elementwise op on sequences of different length (broadcast)")
+    return self.new_list([self.binop("+", x, y) for x, y in zip(a, b)])
+
+
+BUILTINS[np.add] = _np_add
